@@ -112,7 +112,7 @@ def _run_one(cfg, outdir, nonce, libdir, log):
     return cfg, ok, dt, p.stderr[-4000:]
 
 
-def ensure_facts(configs=ALL_CONFIGS, verbose=False):
+def ensure_facts(configs=ALL_CONFIGS, verbose=False, force=False):
     """Returns (dir, meta). dir contains <cfg>.json for each configuration.  Raises
     RuntimeError (infrastructure failure) if the driver cannot be run; a configuration
     that does not *compile* is reported in meta['failed'] (the rules turn that into a
@@ -126,7 +126,7 @@ def ensure_facts(configs=ALL_CONFIGS, verbose=False):
     fcntl.flock(lockf, fcntl.LOCK_EX)
     try:
         metap = os.path.join(outdir, "meta.json")
-        if os.path.exists(metap):
+        if os.path.exists(metap) and not force:
             meta = json.load(open(metap))
             if all(c in meta["done"] or c in meta["failed"] for c in configs):
                 meta["cached"] = True
